@@ -12,7 +12,7 @@ RECOVERY_KINDS = ["reset", "txp", "txf", "packet_sent", "ack_range", "packet_los
 RECOVERY_ONLY = {"txf": '"ty":"conn_close"', "packet_received": '"sp":"retry"', "packet_dropped": '"reason":"Retry'}
 GATE_KINDS = ["reset", "txp", "packet_sent", "metrics", "packet_lost", "congestion", "active_path", "panic", "stall"]
 AMP_KINDS = ["reset", "datagram_received", "datagram_sent", "rxp", "txp", "txf", "endpoint_datagram_dropped", "endpoint_packet_sent", "dg", "inject", "panic", "stall"]
-CID_KINDS = ["reset", "tp", "txf", "rxf", "panic", "stall"]
-CID_ONLY = {"txf": "_cid", "rxf": "_cid"}
+CID_KINDS = ["reset", "tp", "txf", "rxf", "datagram_sent", "endpoint_packet_sent", "dg", "rxd", "endpoint_datagram_dropped", "conn_closed", "panic", "stall"]
+CID_ONLY = {"txf": "_cid", "rxf": "_cid", "endpoint_datagram_dropped": "UnknownDestinationConnectionId"}
 LIVE_KINDS = ["reset", "rxp", "txp", "metrics", "conn_closed", "app_send_call", "app_send", "app_finish", "app_send_done", "app_eos", "app_send_err", "app_recv_err", "app_reset", "app_stop", "app_timeout", "sim_end", "panic", "stall"]
 RECV_KINDS = ["reset", "rxf", "txf", "app_open", "app_recv", "app_eos", "app_stop", "conn_closed", "sim_end", "panic", "stall"]
